@@ -25,15 +25,12 @@ func TokenizeString(str string) []string {
 
 // TokenizeStringByChars returns the words in the passed in string, split by the chars in the given string
 func TokenizeStringByChars(str string, chars string) []string {
-	runes := []rune(chars)
-	f := func(c rune) bool {
-		for _, r := range runes {
-			if c == r {
-				return true
-			}
-		}
-		return false
+	// a set, so that the work per character of the string doesn't grow with the number of delimiters
+	runes := make(map[rune]bool, 8)
+	for _, r := range chars {
+		runes[r] = true
 	}
+	f := func(c rune) bool { return runes[c] }
 	return strings.FieldsFunc(str, f)
 }
 
